@@ -94,6 +94,8 @@ class Ctx:
         self.max_decisions = max_decisions
         self.notes = []
         self.branch_unknown = 0
+        self._psolver = None
+        self._pcount = -1
 
     # -- assumptions ----------------------------------------------------------------------------
     def add_assume(self, *conds):
@@ -725,15 +727,35 @@ def check_sat(constraints, timeout_ms=20000, tactic=None):
 
 def prove(c: Ctx, prop, extra=(), timeout_ms=20000):
     """Is `prop` implied by assumptions+path condition?  returns (verdict, model, seconds);
-    verdict: 'unsat' = holds, 'sat' = counterexample model, 'unknown'."""
+    verdict: 'unsat' = holds, 'sat' = counterexample model, 'unknown'.
+    One solver per path (constraints asserted once), one push/pop per obligation."""
     if isinstance(prop, SymBool):
         prop = prop.t
     if isinstance(prop, (bool, np.bool_)):
         if prop:
             return 'unsat', None, 0.0
-        # property literally false on this path: any model of the path is a counterexample
-        return check_sat(c.all_constraints() + list(extra), timeout_ms)
-    return check_sat(c.all_constraints() + list(extra) + [z3.Not(prop)], timeout_ms)
+        neg = []
+    else:
+        neg = [z3.Not(prop)]
+    s = getattr(c, '_psolver', None)
+    ncons = len(c.assume) + len(c.defined) + len(c.side) + len(c.pc)
+    if s is None or c._pcount != ncons:
+        s = z3.Solver()
+        s.add(*c.all_constraints())
+        c._psolver, c._pcount = s, ncons
+    s.set('timeout', int(timeout_ms))
+    s.push()
+    t0 = time.time()
+    try:
+        s.add(*extra)
+        s.add(*neg)
+        r = str(s.check())
+        m = s.model() if r == 'sat' else None
+    except z3.Z3Exception:
+        r, m = 'unknown', None
+    dt = time.time() - t0
+    s.pop()
+    return r, m, dt
 
 
 # --------------------------------------------------------------------------------------------------
